@@ -145,11 +145,11 @@ BoundsItem(it) ==
 Consume ==
     /\ tid <= Len(Items)
     /\ l <= LastStep(Items[tid])
+    /\ l' = l + 1 /\ nev' = nev + 1 /\ tid' = tid       \* first: primed L1 formulas mention Items[tid]
     /\ LET it == Items[tid]
        IN IF it.kind = "run" THEN (IF l = 0 THEN RunConfigure(it) ELSE RunEvent(it))
           ELSE IF it.kind = "seek" THEN SeekItem(it)
           ELSE BoundsItem(it)
-    /\ l' = l + 1 /\ nev' = nev + 1 /\ tid' = tid
 
 NextTrace ==
     /\ tid <= Len(Items)
